@@ -39,6 +39,9 @@ def run(chk, tier):
         F = load(chk, cfg)
         display_mockerror(chk, F, 'R19.1', cfg)
         display_call(chk, F, 'R19.2', cfg)
+        # R19.8 'panics naming the call': the text the mock panics with is the rendering of this call's own error
+        from props.c08 import panic_message_is_the_error
+        panic_message_is_the_error(chk, F, 'R19.8', cfg)
         pattern_indices(chk, F, 'R19.5', cfg)
         from props import ctor
         ctor.reporter_storage(chk, F, 'R19.6', cfg)
@@ -94,7 +97,183 @@ def display_mockerror(chk, F, rule, cfg):
     chk.sample({'fn': fn.defp, 'config': cfg, 'variants': {k: len(v) for k, v in by_variant.items()}})
 
 
+def _const_str(v):
+    """the text of a constant &str value, else None"""
+    import ast
+    v = strip(v)
+    for _ in range(3):
+        if v[0] == 'ref' and v[1][0][0] == 'ptr' and not v[1][1]:
+            v = strip(v[1][0][1])
+        elif v[0] == 'ref' and len(v) > 3:
+            v = strip(v[3])
+        elif v[0] == 'deref':
+            v = strip(v[1])
+    if v[0] == 'c' and isinstance(v[1], tuple) and v[1] and v[1][0] == 'repr' and len(v[1]) > 2 and v[1][2] in ('&str', "&'static str"):
+        try:
+            r = ast.literal_eval(v[1][1])
+            return r if isinstance(r, str) else None
+        except Exception:
+            return None
+    return None
+
+
+def _template(v):
+    """bytes of a format_args! template constant (`&[u8; N]`), else None"""
+    import ast
+    v = strip(v)
+    if v[0] == 'ref' and v[1][0][0] == 'ptr' and not v[1][1]:
+        v = strip(v[1][0][1])
+    elif v[0] == 'ref' and len(v) > 3:
+        v = strip(v[3])
+    if v[0] == 'deref':
+        v = strip(v[1])
+    if v[0] == 'c':
+        v = v[1]
+    if isinstance(v, tuple) and v and v[0] == 'repr' and str(v[2]).startswith('&[u8;'):
+        try:
+            r = ast.literal_eval(v[1])
+            return r if isinstance(r, bytes) else None
+        except Exception:
+            return None
+    return None
+
+
+def rendered(p):
+    """what a fmt function writes on this path, as a list of ('lit', text) / ('val', value) in output order; None if a write is not understood.
+    format_args! templates are decoded by the encoding documented in core::fmt (length-prefixed literal pieces, 0xC0 = next argument)."""
+    out = []
+    for e in p.effects:
+        if e.kind != 'call':
+            continue
+        n = e.data[1]
+        a = e.data[2]
+        if re.search(r'(Formatter|Write>?)::write_str$', n):
+            t = _const_str(a[1])
+            out.append(('lit', t) if t is not None else ('val', strip(a[1])))
+        elif re.search(r'(Formatter|Write>?)::write_char$', n):
+            out.append(('val', strip(a[1])))
+        elif re.search(r'(Formatter|Write>?)::write_fmt$', n):
+            ar = strip(a[1])
+            if is_call(ar, r'fmt::Arguments::from_str$'):
+                t = _const_str(ar[2][0])
+                if t is None:
+                    return None
+                out.append(('lit', t))
+                continue
+            if not is_call(ar, r'fmt::Arguments::new$'):
+                return None
+            tpl = _template(ar[2][0])
+            arr = strip(ar[2][1])
+            if arr[0] == 'ref' and len(arr) > 3:
+                arr = strip(arr[3])
+            if tpl is None or arr[0] != 'agg':
+                return None
+            vals = [x for _, x in arr[4]]
+            i = 0
+            k = 0
+            while i < len(tpl):
+                b = tpl[i]
+                i += 1
+                if b == 0:
+                    break
+                if b < 0x80:
+                    out.append(('lit', tpl[i:i + b].decode('utf-8', 'replace')))
+                    i += b
+                elif b == 0x80:
+                    ln = tpl[i] | (tpl[i + 1] << 8)
+                    out.append(('lit', tpl[i + 2:i + 2 + ln].decode('utf-8', 'replace')))
+                    i += 2 + ln
+                else:
+                    if b != 0xC0:
+                        if b & 1:
+                            i += 4
+                        if b & 2:
+                            i += 2
+                        if b & 4:
+                            i += 2
+                        if b & 8:
+                            k = tpl[i] | (tpl[i + 1] << 8)
+                            i += 2
+                    if k >= len(vals):
+                        return None
+                    v = strip(vals[k])
+                    k += 1
+                    inner = v[2][0] if v[0] == 'call' and re.search(r'rt::Argument::new_\w+$', v[1]) and v[2] else v
+                    t = _const_str(inner)
+                    out.append(('lit', t) if t is not None else ('val', strip(inner)))
+        elif re.search(r'(Display|Debug)>?::fmt$', n) and len(a) == 2:
+            out.append(('val', strip(a[0])))
+    return out
+
+
+def display_call_exact(chk, F, rule, cfg):
+    """the rendering of a call, exactly: `<path>(` e1 `, ` e2 .. `)` with e_i = the argument's own rendering, or `?` where there is none -
+    for every sequence of up to two arguments explored (all four Some/None combinations)"""
+    fn = F.method('debug::FnActualCall', 'fmt', 'core::fmt::Display')
+    paths = symex.Interp(F, loop_bound=3).run(fn)
+    seen = {}
+    for p in paths:
+        if p.outcome[0] != 'return' or is_call(strip(p.outcome[1]), r'from_residual$'):
+            continue
+        # std contract: what `peek()` saw is what the following `next()` yields - paths on which the two disagree do not exist
+        pk = None
+        feasible = True
+        for d in p.decisions:
+            v = strip(d.value)
+            if v[0] == 'discr' and (is_call(strip(v[1]), r'Peekable<I>>?::peek$|Peekable::peek$') or mentions(v[1], lambda x: is_call(x, r'Peekable(<I>)?>?::peek$')) and not L.is_iter_next(v)):
+                pk = decision_variant(F, d)
+            elif L.truth_of(d)[1] is not None and is_call(L.truth_of(d)[0], r'Option::(is_some|is_none)$') and mentions(L.truth_of(d)[0], lambda x: is_call(x, r'Peekable(<I>)?>?::peek$')):
+                inner_, t_ = L.truth_of(d)
+                pk = 'Some' if (inner_[1].endswith('is_some') == t_) else 'None'
+            elif L.is_iter_next(v):
+                if pk is not None and decision_variant(F, d) != pk:
+                    feasible = False
+                pk = None
+        # std contract: the k-th item of `enumerate()` carries index k - 1: tests of that index against a constant have one feasible outcome
+        nexts = [e.data[3] for e in p.effects if e.kind == 'call' and re.search(r'Enumerate<I> as core::iter::Iterator>::next$', e.data[1])]
+        for d in p.decisions:
+            inner_, t_ = L.truth_of(d)
+            cmp_ = symex.as_comparison(inner_) if t_ is not None else None
+            if not cmp_:
+                continue
+            for a_, b_, op_ in ((cmp_[1], cmp_[2], cmp_[0]), (cmp_[2], cmp_[1], symex.CMP_FLIP[cmp_[0]])):
+                a_, b_ = strip(a_), strip(b_)
+                if b_[0] == 'c' and isinstance(b_[1], int) and not isinstance(b_[1], bool) and a_[0] == 'field' and a_[2] == '0':
+                    src = [x for x in symex.subvalues(a_) if x[0] == 'call' and re.search(r'Enumerate<I> as core::iter::Iterator>::next$', x[1])]
+                    if src and src[0][3] in nexts and mentions(a_, lambda x: x[0] == 'as' and x[2] == 'Some'):
+                        if symex.cmp_holds(op_, nexts.index(src[0][3]) - b_[1]) != t_:
+                            feasible = False
+        if not feasible:
+            continue
+        toks = rendered(p)
+        elems = []
+        for d in p.decisions:
+            v = strip(d.value)
+            if v[0] == 'discr' and strip(v[1])[0] in ('deref', 'field') and mentions(v[1], lambda x: x[0] == 'call' and re.search(r'Iterator>?::next$', x[1])) and not L.is_iter_next(v):
+                elems.append(decision_variant(F, d))
+        if toks is None:
+            chk.ob(rule, 'every write of FnActualCall::fmt is understood', False, config=cfg, fn=fn, site='render', unrecognised=True, what='unknown write on a path with elements %s' % elems)
+            continue
+        got = ''
+        for k, x in toks:
+            if k == 'lit':
+                got += x
+            elif mentions(x, lambda y: y[0] == 'ref' and y[1][1][-2:] == (('f', 'info'), ('f', 'path'))) or field_path(x)[1][-2:] == ['info', 'path']:
+                got += '<path>'
+            elif mentions(x, lambda y: y[0] == 'as' and y[2] == 'Some' and mentions(y, lambda z: z[0] == 'call' and re.search(r'Iterator>?::next$', z[1]))) or \
+                    mentions(x, lambda y: y[0] == 'ref' and ('dc', 'Some') in y[1][1] and mentions(y[1][0], lambda z: z[0] == 'call' and re.search(r'Iterator>?::next$', z[1]))):
+                got += '<arg>'
+            else:
+                got += '<other>'
+        want = '<path>(' + ', '.join('<arg>' if v_ == 'Some' else '?' for v_ in elems) + ')'
+        seen[tuple(elems)] = seen.get(tuple(elems), 0) + 1
+        chk.ob(rule, 'a call with arguments %s is rendered as %s' % (list(elems), want), got == want, config=cfg, fn=fn, site='render:%s' % ','.join(elems), what='rendering of %s' % list(elems), found=got, expected=want)
+    need = [(), ('Some',), ('None',), ('Some', 'Some'), ('Some', 'None'), ('None', 'Some'), ('None', 'None')]
+    chk.floor(rule, 'argument shapes (0..2 arguments, with and without Debug) rendered completely', sum(1 for k in need if k in seen), len(need), config=cfg)
+
+
 def display_call(chk, F, rule, cfg):
+    display_call_exact(chk, F, rule, cfg)
     fn = F.method('debug::FnActualCall', 'fmt', 'core::fmt::Display')
     paths = symex.Interp(F, loop_bound=2).run(fn)
     chk.analysed(fn)
